@@ -78,6 +78,8 @@ type c20Line struct {
 //	func     plain function; Doc is its doc comment (attached, no blank line)
 //	method   function with a receiver (never carries a redirect line)
 //	var, const, type, group (parenthesised var block), funclit (var f = func(){})
+//	blob     a declaration whose source line is Len bytes long (generated tables): a string
+//	         constant (V=0) or a variable below one long prose comment line (V=1)
 //	comment  a free-standing comment group (Doc holds its lines), always followed by a blank line
 type c20Item struct {
 	Kind     string    `json:"kind"`
@@ -89,7 +91,8 @@ type c20Item struct {
 	Inner    []c20Line `json:"inner,omitempty"`    // comments inside the body / struct / var block
 	Lit      bool      `json:"lit,omitempty"`      // func body: the inner comments directly precede a function literal
 	Trail    *c20Line  `json:"trail,omitempty"`    // comment trailing the last line of the declaration
-	V        int       `json:"v,omitempty"`        // type: 0 struct, 1 interface
+	V        int       `json:"v,omitempty"`        // type: 0 struct, 1 interface; blob: 0 string literal, 1 comment line
+	Len      int       `json:"len,omitempty"`      // blob: length of the long line
 }
 
 type c20File struct {
@@ -239,6 +242,13 @@ func (it c20Item) render(b *strings.Builder) {
 		b.WriteString("var " + it.Name + " int = 1" + it.trail() + "\n")
 	case "const":
 		b.WriteString("const " + it.Name + " = 1" + it.trail() + "\n")
+	case "blob":
+		if it.V%2 == 1 {
+			b.WriteString("// " + strings.Repeat("generated table ", it.Len/16+1)[:it.Len] + "\n")
+			b.WriteString("var " + it.Name + " = 0" + it.trail() + "\n")
+		} else {
+			b.WriteString("const " + it.Name + " = \"" + strings.Repeat("0123456789abcdef", it.Len/16+1)[:it.Len] + "\"" + it.trail() + "\n")
+		}
 	case "funclit":
 		b.WriteString("var " + it.Name + " = func(x int) int {\n")
 		c20WriteLines(b, "\t", it.Inner)
@@ -620,6 +630,10 @@ func c20Validate(c c20Case) error {
 						return fmt.Errorf("%s: bad body kind %q", w, it.Body)
 					}
 				case "var", "const", "type", "group", "funclit":
+				case "blob":
+					if it.Len < 1 || it.Len > 1<<21 || len(it.Inner) > 0 {
+						return fmt.Errorf("%s: bad blob", w)
+					}
 				case "comment":
 					if len(it.Doc) == 0 || len(it.Detached) > 0 || it.Trail != nil || len(it.Inner) > 0 {
 						return fmt.Errorf("%s: a comment element has doc lines only", w)
@@ -857,14 +871,16 @@ func c20Run(c c20Case) *vlib.Failure {
 		panic("c20: mkdirtemp: " + err.Error())
 	}
 	defer os.RemoveAll(root)
-	goFiles := 0
+	goFiles, bytesWritten := 0, 0
 	for _, d := range c.Dirs {
 		dp := filepath.Join(root, filepath.FromSlash(d.Path))
 		if err := os.MkdirAll(dp, 0o755); err != nil {
 			panic("c20: mkdir: " + err.Error())
 		}
 		for _, f := range d.Files {
-			if err := os.WriteFile(filepath.Join(dp, f.Name), []byte(f.render()), 0o644); err != nil {
+			text := f.render()
+			bytesWritten += len(text)
+			if err := os.WriteFile(filepath.Join(dp, f.Name), []byte(text), 0o644); err != nil {
 				panic("c20: write: " + err.Error())
 			}
 			if f.Kind == "go" {
@@ -872,7 +888,11 @@ func c20Run(c c20Case) *vlib.Failure {
 			}
 		}
 	}
-	return c20CheckDir(root, c20Model(c), c20Reps(goFiles))
+	reps := c20Reps(goFiles)
+	if bytesWritten > 100<<10 && reps > 6 {
+		reps = 6 // trees with generated tables: a build costs milliseconds
+	}
+	return c20CheckDir(root, c20Model(c), reps)
 }
 
 // ---------------------------------------------------------------------------
@@ -1034,6 +1054,9 @@ func c20UniqueFile(used map[string]bool, stem, suffix string) string {
 func c20GenItem(t *rapid.T, idents map[string]bool) c20Item {
 	kind := rapid.SampledFrom([]string{"func", "func", "func", "func", "func", "func", "func", "func", "func", "func",
 		"method", "var", "var", "const", "type", "type", "group", "funclit", "comment", "comment", "comment"}).Draw(t, "itemkind")
+	if rapid.IntRange(0, 39).Draw(t, "blob") == 0 {
+		kind = "blob"
+	}
 	it := c20Item{Kind: kind, Tight: rapid.IntRange(0, 3).Draw(t, "tight") == 0}
 	if kind == "comment" {
 		it.Doc = c20GenLines(t, 1, 3, 55, true)
@@ -1069,7 +1092,12 @@ func c20GenItem(t *rapid.T, idents map[string]bool) c20Item {
 		}
 		trail(false)
 	default:
-		it.Name = c20Unique(idents, map[string]string{"var": "v", "const": "c", "type": "T", "group": "gv", "funclit": "fl"}[kind])
+		it.Name = c20Unique(idents, map[string]string{"var": "v", "const": "c", "type": "T", "group": "gv", "funclit": "fl", "blob": "tbl"}[kind])
+		if kind == "blob" {
+			// line lengths around the buffer sizes a line reader may use
+			it.Len = rapid.SampledFrom([]int{200, 4095, 4096, 4097, 65535, 65536, 65537, 70000, 140000}).Draw(t, "bloblen")
+			it.V = rapid.IntRange(0, 1).Draw(t, "blobshape")
+		}
 		if rapid.IntRange(0, 2).Draw(t, "hasdoc") != 0 {
 			it.Doc = c20GenLines(t, 1, 3, 60, true)
 		}
